@@ -558,6 +558,92 @@ fn run_stream_check(opts: &Opts, prop: Prop, known: &[Known]) -> (Vec<Phase>, BT
         });
         phases.push(Phase { name: "all_chunkings_of_short_streams".into(), items: total_traces, stats: agg, wall_s: t0.elapsed().as_secs_f64() });
     }
+    if prop == Prop::C03 || prop == Prop::C05 {
+        // every checksum VALUE: for each of the 2^24 values a valid frame (3-byte payload chosen so
+        // that the checksum takes that value), alone and followed by one byte
+        let t0 = Instant::now();
+        let (st, fail) = par_run(256, opts.jobs, |top, st| {
+            for low in 0..=0xFFFFu32 {
+                let target = ((top as u32) << 16) | low;
+                let Some(mut f) = refmodel::make_frame_with_crc((low % 64) as u8 * ((top % 2) as u8), &[0, 0, 0], target) else { continue };
+                st.oracle_evals += 2;
+                let res = if prop == Prop::C03 {
+                    judge::check_c03_slice(&f, &format!("valid frame with checksum {:06x}", target)).map(|_| ())
+                } else {
+                    f.push(0xD3);
+                    judge::check_c05_buffer(&f, &format!("valid frame with checksum {:06x} followed by d3", target))
+                };
+                if let Err(v) = res {
+                    let mut t = StreamTrace::empty(prop.id());
+                    t.origin = format!("sweep:checksum_value:{:06x}", target);
+                    t.run = target as u64;
+                    t.stream = f.clone();
+                    t.segments.push(trace::Segment { label: format!("foreign:L=3,crc={:06x}", target), kind: "foreign".into(), start: 0, len: 9, intact: true });
+                    t.normalise();
+                    return handle(v, Payload::Stream(t));
+                }
+            }
+            st.probe_n("checksum_value_sweep_frames", 65536);
+            None
+        });
+        phases.push(Phase { name: "every_checksum_value".into(), items: 1 << 24, stats: st, wall_s: t0.elapsed().as_secs_f64() });
+        if let Some(f) = fail {
+            report_failure(opts, f);
+        }
+        if let Some(obj) = extra.as_object_mut() {
+            let e = obj.entry("exhaustive_subspaces").or_insert(json!([]));
+            if let Some(a) = e.as_array_mut() {
+                a.push(json!("all 2^24 checksum values: for each value a valid 9-byte frame carrying it (framer for C03; scanner with one following byte for C05)"));
+            }
+        }
+    }
+    if prop == Prop::C05 || prop == Prop::C13 {
+        // every message number 0..4095 as a bare two-byte payload and with a few body bytes, followed by
+        // nothing / one byte / another frame
+        let t0 = Instant::now();
+        let (st, fail) = par_run(4096, opts.jobs, |n, st| {
+            let n = n as u16;
+            for body in [0usize, 1, 6] {
+                let mut p = vec![(n >> 4) as u8, ((n & 0xF) << 4) as u8];
+                for i in 0..body {
+                    p.push((n as u8).wrapping_mul(3).wrapping_add(i as u8));
+                }
+                let f = refmodel::make_frame(0, &p);
+                for sfx in [&[][..], &[0x00][..], &[0xD3, 0x00][..]] {
+                    let mut v = f.clone();
+                    v.extend_from_slice(sfx);
+                    st.oracle_evals += 2;
+                    let what = format!("frame for message number {} (payload {} bytes) + {} suffix bytes", n, p.len(), sfx.len());
+                    let res = if prop == Prop::C05 {
+                        judge::check_c05_buffer(&v, &what)
+                    } else {
+                        judge::check_c13(&v, f.len(), &what, true, None).and_then(|_| judge::check_c13_scanner(&v, f.len(), &what))
+                    };
+                    if let Err(viol) = res {
+                        let mut t = StreamTrace::empty(prop.id());
+                        t.origin = format!("sweep:message_number:{}", n);
+                        t.run = n as u64;
+                        t.stream = v.clone();
+                        t.segments.push(trace::Segment { label: format!("foreign:L={},number={}", p.len(), n), kind: "foreign".into(), start: 0, len: f.len(), intact: true });
+                        t.normalise();
+                        return handle(viol, Payload::Stream(t));
+                    }
+                }
+            }
+            st.probe("message_number_sweep");
+            None
+        });
+        phases.push(Phase { name: "every_message_number".into(), items: 4096, stats: st, wall_s: t0.elapsed().as_secs_f64() });
+        if let Some(f) = fail {
+            report_failure(opts, f);
+        }
+        if let Some(obj) = extra.as_object_mut() {
+            let e = obj.entry("exhaustive_subspaces").or_insert(json!([]));
+            if let Some(a) = e.as_array_mut() {
+                a.push(json!("all 4096 message numbers as frames with 2-, 3- and 8-byte payloads x {no suffix, one byte, d3 00}"));
+            }
+        }
+    }
     // phase 3: seeded random exploration
     let t0 = Instant::now();
     let n = opts.runs.unwrap_or_else(|| runs_for(&opts.id, &opts.tier) / if opts.secondary { 4 } else { 1 });
